@@ -87,10 +87,15 @@ SOFTWARE, EVEN IF ADVISED OF THE POSSIBILITY OF SUCH DAMAGE.
 
 // fail_if_error() is used in parser actions for aborting the parsing if an
 // error has occurred. See fail_with_error for details.
+// The argument is evaluated exactly once, it is usually a function call.
 #define fail_if_error(e) \
-    if (e != ERROR_SUCCESS && e != ERROR_UNKNOWN_ESCAPE_SEQUENCE) \
     { \
-      fail_with_error(e); \
+      int fail_if_error_result = (e); \
+      if (fail_if_error_result != ERROR_SUCCESS && \
+          fail_if_error_result != ERROR_UNKNOWN_ESCAPE_SEQUENCE) \
+      { \
+        fail_with_error(fail_if_error_result); \
+      } \
     }
 
 
